@@ -673,8 +673,12 @@ public:
 
   template <typename T>
   void pput(size_t offset, const T& v) {
-    if (offset + sizeof(T) > this->data.size()) {
-      this->data.resize(offset + sizeof(T), '\0');
+    size_t end_offset = offset + sizeof(T);
+    if (end_offset < offset) {
+      throw std::length_error("offset too large");
+    }
+    if (end_offset > this->data.size()) {
+      this->data.resize(end_offset, '\0');
     }
     memcpy(this->data.data() + offset, &v, sizeof(v));
   }
@@ -772,7 +776,7 @@ public:
   ~BufferWriter() = default;
 
   inline void pwrite(size_t offset, const void* data, size_t size) {
-    if (offset + size > this->buf_size) {
+    if ((size > this->buf_size) || (offset > this->buf_size - size)) {
       throw std::runtime_error("Offset out of bounds");
     }
     memcpy(this->buf + offset, data, size);
